@@ -77,6 +77,8 @@ def program_source(nodes: List[Dict[str, Any]], task_deps: List[Any], task: Dict
         body += "        raise KeyboardInterrupt()\n"
     elif kind == "badstr":
         body += "        raise BadStr()\n"
+    elif kind == "falsy":
+        body += "        raise EmptyBatch()\n"
     elif kind == "nores":
         body += "        from taskiq.exceptions import NoResultError\n        raise NoResultError()\n"
     else:
@@ -102,6 +104,13 @@ class BadStr(Exception):
         raise KeyError(7)
 
 
+class EmptyBatch(Exception):
+    """aggregate error with len(): raised without sub-errors the instance is falsy."""
+
+    def __len__(self) -> int:
+        return 0
+
+
 def build(nodes: List[Dict[str, Any]], task_deps: List[Any], task: Dict[str, Any], log: Callable[..., None]) -> Any:
     """exec the program in a throw-away module registered in sys.modules (the task decorator does
     sys.modules[func.__module__]); returns (module, task_function)."""
@@ -110,6 +119,7 @@ def build(nodes: List[Dict[str, Any]], task_deps: List[Any], task: Dict[str, Any
     mod = types.ModuleType(name)
     mod.LOG = log  # type: ignore[attr-defined]
     mod.BadStr = BadStr  # type: ignore[attr-defined]
+    mod.EmptyBatch = EmptyBatch  # type: ignore[attr-defined]
     sys.modules[name] = mod
     src = program_source(nodes, task_deps, task)
     exec(compile(src, f"<{name}>", "exec"), mod.__dict__)
